@@ -52,6 +52,13 @@
 // One Lab is driven by one goroutine (the caller); labs of one process are used
 // one after the other (goroutine inspection does not tell environments apart).
 //
+// Extensions for monitors that drive lab.Env / lab.W.Mgr themselves, possibly from
+// several goroutines (mon-env: C10, C01INP), all optional and off by default (ext.go):
+// Lab.OnProbe (per-invocation snapshot / failure / delay decided by the monitor,
+// stored in Record.Snap / Record.Req), Lab.OnRecord, Lab.StampG (Record.G = goroutine
+// that wrote the record; environment events are published on the goroutine that
+// executes TryTransition / TeardownEnvironment), Lab.Add, World.Lab, GoroutineID.
+//
 // # Records
 //
 // Every record carries Seq (vlib.Seq(), process-wide logical clock; the log is
